@@ -47,6 +47,9 @@ def build_tree(d):
     # so its files must be listed once, under their canonical paths
     os.symlink(os.path.join(root, "d1", "d2"), os.path.join(out, "alias"))
     os.symlink(os.path.join(out, "alias", "d3"), os.path.join(root, "d1", "d2", "zz_abs"))     # same nesting level as its target
+    # links with innocent names whose targets are hidden / ignored files: following the link must not smuggle the target past the filters
+    os.symlink(".h0.bin", os.path.join(root, "pub_link"))
+    os.symlink("ignored.bin", os.path.join(root, "ig", "innocent"))
     return root
 
 
